@@ -4,7 +4,7 @@
    every register.  Then the circuit-level statement by induction over the gate list, and the end-to-end statement
    under the explicitly assumed composition principle. *)
 From Coq Require Import ZArith QArith String List Bool Lia FunctionalExtensionality.
-From QV Require Import Found.Base Found.Lemmas Found.KS Found.KSProofs Found.Sym Found.SymProofs Found.Circ
+From QV Require Import Found.Base Found.Lemmas Found.KS Found.KSProofs Found.Sym Found.SymProofs Found.Circ Found.Comm
   Gen.Gates Model.SpinChainTypes Gen.SpinChain Model.Concat Model.SpinChain Spec.SpinChainSpec
   Proofs.SpinChainCal Proofs.SpinChainRule.
 Import ListNotations.
@@ -80,25 +80,26 @@ Proof.
   injection El as <-. reflexivity.
 Qed.
 
-Lemma sem_ok_1q (R : PhaseRing) (A : atoms R) name k s a m t :
+Lemma sem_ok_1q name k s a m t :
   gate_cal name = Some (k, s, a) -> lib_matrix name = Some m -> sem_ok name = true -> hqubits k = 1%nat ->
-  exists ph, pulse_phase s a = Some ph /\ sem [gden R A (msubst [ph] (closed k), [t])] = sem [gden R A (m, [t])].
+  exists ph, pulse_phase s a = Some ph /\
+    forall (R : PhaseRing) (A : atoms R), sem [gden R A (msubst [ph] (closed k), [t])] = sem [gden R A (m, [t])].
 Proof.
   intros Hc Hm. unfold sem_ok. rewrite Hc, Hm. destruct (pulse_phase s a) as [ph|]; [|discriminate].
-  intros H Hk. exists ph. split; [reflexivity|].
+  intros H Hk. exists ph. split; [reflexivity|]. intros R A.
   destruct k; try discriminate;
     (pose proof (rule_sound R A 1 _ _ [t] H (NoDup_cons t (@in_nil _ t) (NoDup_nil _)) eq_refl) as E;
      rewrite !place1 in E; exact E).
 Qed.
 
-Lemma sem_ok_2q (R : PhaseRing) (A : atoms R) name k s a m x y :
+Lemma sem_ok_2q name k s a m x y :
   gate_cal name = Some (k, s, a) -> lib_matrix name = Some m -> sem_ok name = true -> hqubits k = 2%nat -> x <> y ->
-  exists ph, pulse_phase s a = Some ph /\
+  exists ph, pulse_phase s a = Some ph /\ forall (R : PhaseRing) (A : atoms R),
     sem [gden R A (msubst [ph] (closed k), [x; y])] = sem [gden R A (m, [x; y])] /\
     sem [gden R A (msubst [ph] (closed k), [y; x])] = sem [gden R A (m, [x; y])].
 Proof.
   intros Hc Hm. unfold sem_ok. rewrite Hc, Hm. destruct (pulse_phase s a) as [ph|]; [|discriminate].
-  intros H Hk Hxy. exists ph. split; [reflexivity|]. destruct k; try discriminate.
+  intros H Hk Hxy. exists ph. split; [reflexivity|]. intros R A. destruct k; try discriminate.
   apply andb_prop in H. destruct H as [H1 H2].
   assert (Hnd : NoDup [x; y]).
   { constructor; [intros [E|[]]; apply Hxy; symmetry; exact E|]. constructor; [intros []|constructor]. }
@@ -116,10 +117,10 @@ Lemma pair_of_minmax a b : a <> b ->
 Proof. intros H. destruct (Nat.le_gt_cases a b); [left|right]; split; f_equal; lia. Qed.
 
 (* ---- one instruction: the pulse of the compiled label = the gate on its targets ---- *)
-Theorem instr_is_gate (R : PhaseRing) (A : atoms R) c g d lb co :
+Theorem instr_is_gate c g d lb co :
   setup_ok c -> wf_pulse_gate c g -> compile_gate c g = Ok (CInstr d [(lb, co)]) ->
   exists sp sn, pulse_sgate c (g_name g) lb = Some sp /\ native_sgate g = Some sn /\
-                sem [gden R A sp] = sem [gden R A sn].
+                forall (R : PhaseRing) (A : atoms R), sem [gden R A sp] = sem [gden R A sn].
 Proof.
   intros Hs [Hin [Hnd [Hr Hlen]]] Hc. pose proof (sem_ok_in _ Hin) as Hok.
   destruct g as [name ts arg]. cbn [g_name g_targets] in *.
@@ -132,7 +133,7 @@ Proof.
     destruct (swap_compiles_coupled c (mkG "ISWAP" [x; y] arg) _ _ Hs Hr Hc) as [q1 [q2 [lb' [co' [du [tz [H1 [H2 [Hcp [Hi [Hctl Ho]]]]]]]]]]].
     injection Hi as <- <- <-. cbn [g_targets zmin zmax fold_left] in H1, H2. injection H1 as <-. injection H2 as <-.
     assert (Hxy : x <> y) by (inversion Hnd as [|? ? Hn _]; intro E; apply Hn; left; symmetry; exact E).
-    destruct (sem_ok_2q R A "ISWAP" _ _ _ _ x y eq_refl eq_refl Hok eq_refl Hxy) as [ph [Hph [E1 E2]]].
+    destruct (sem_ok_2q "ISWAP" _ _ _ _ x y eq_refl eq_refl Hok eq_refl Hxy) as [ph [Hph E12]].
     assert (Hfam : family_of (fst lb) = Some (mkCF "g" HXY (Mul (Num 2) Pi) INumCoupling [ILoop; IMod (IAdd ILoop (IConst 1)) IN])).
     { unfold swap_compiler in Hc. destruct (swap_label c _) as [l0|] eqn:El; [|discriminate]. cbn [rbind] in Hc.
       assert (lb = l0).
@@ -146,13 +147,13 @@ Proof.
     change (method_area "ISWAP") with (Some (Div (Neg (Num 1)) (Num 8))). cbn [cf_scale cf_kind] in Hph |- *. rewrite Hph.
     change (lib_matrix "ISWAP") with (Some fn_iswap).
     eexists. eexists. split; [reflexivity|]. split; [reflexivity|].
-    destruct (pair_of_minmax x y Hxy) as [[Ea Eb]|[Ea Eb]]; destruct Ho as [->| ->]; cbn [map]; rewrite Ea, Eb, !Nat2Z.id; assumption.
+    destruct (pair_of_minmax x y Hxy) as [[Ea Eb]|[Ea Eb]]; destruct Ho as [->| ->]; cbn [map]; rewrite Ea, Eb, !Nat2Z.id; intros R A; apply (E12 R A).
   - (* RX *)
     change (gate_cal "RX") with (Some (HX, Mul (Num 2) Pi, rot_area)) in Hlen. cbn [hqubits] in Hlen.
     destruct ts as [|t [|? ?]]; try discriminate.
     unfold compile_gate in Hc. cbn [g_name] in Hc. change (SpinChain.assoc "RX" gate_methods) with (Some (MRot "sx" "sx")) in Hc. cbv beta iota in Hc.
     rewrite (rotation_label c (mkG "RX" [t] arg) _ _ _ _ _ t eq_refl Hc).
-    destruct (sem_ok_1q R A "RX" _ _ _ _ t eq_refl eq_refl Hok eq_refl) as [ph [Hph E]].
+    destruct (sem_ok_1q "RX" _ _ _ _ t eq_refl eq_refl Hok eq_refl) as [ph [Hph E]].
     unfold pulse_sgate, native_sgate, family_of. cbn [fst g_name g_targets].
     rewrite (control_1q c "sx" _ _ (Z.of_nat t) family_sx eq_refl eq_refl) by (inversion Hr; lia).
     rewrite family_sx. change (method_area "RX") with (Some rot_area). cbn [cf_scale cf_kind] in Hph |- *. rewrite Hph.
@@ -163,7 +164,7 @@ Proof.
     destruct ts as [|t [|? ?]]; try discriminate.
     unfold compile_gate in Hc. cbn [g_name] in Hc. change (SpinChain.assoc "RZ" gate_methods) with (Some (MRot "sz" "sz")) in Hc. cbv beta iota in Hc.
     rewrite (rotation_label c (mkG "RZ" [t] arg) _ _ _ _ _ t eq_refl Hc).
-    destruct (sem_ok_1q R A "RZ" _ _ _ _ t eq_refl eq_refl Hok eq_refl) as [ph [Hph E]].
+    destruct (sem_ok_1q "RZ" _ _ _ _ t eq_refl eq_refl Hok eq_refl) as [ph [Hph E]].
     unfold pulse_sgate, native_sgate, family_of. cbn [fst g_name g_targets].
     rewrite (control_1q c "sz" _ _ (Z.of_nat t) family_sz eq_refl eq_refl) by (inversion Hr; lia).
     rewrite family_sz. change (method_area "RZ") with (Some rot_area). cbn [cf_scale cf_kind] in Hph |- *. rewrite Hph.
@@ -177,7 +178,7 @@ Proof.
     destruct (swap_compiles_coupled c (mkG "SQRTISWAP" [x; y] arg) _ _ Hs Hr Hc) as [q1 [q2 [lb' [co' [du [tz [H1 [H2 [Hcp [Hi [Hctl Ho]]]]]]]]]]].
     injection Hi as <- <- <-. cbn [g_targets zmin zmax fold_left] in H1, H2. injection H1 as <-. injection H2 as <-.
     assert (Hxy : x <> y) by (inversion Hnd as [|? ? Hn _]; intro E; apply Hn; left; symmetry; exact E).
-    destruct (sem_ok_2q R A "SQRTISWAP" _ _ _ _ x y eq_refl eq_refl Hok eq_refl Hxy) as [ph [Hph [E1 E2]]].
+    destruct (sem_ok_2q "SQRTISWAP" _ _ _ _ x y eq_refl eq_refl Hok eq_refl Hxy) as [ph [Hph E12]].
     assert (Hfam : family_of (fst lb) = Some (mkCF "g" HXY (Mul (Num 2) Pi) INumCoupling [ILoop; IMod (IAdd ILoop (IConst 1)) IN])).
     { unfold swap_compiler in Hc. destruct (swap_label c _) as [l0|] eqn:El; [|discriminate]. cbn [rbind] in Hc.
       assert (lb = l0).
@@ -191,7 +192,7 @@ Proof.
     change (method_area "SQRTISWAP") with (Some (Div (Neg (Num 1)) (Num 16))). cbn [cf_scale cf_kind] in Hph |- *. rewrite Hph.
     change (lib_matrix "SQRTISWAP") with (Some fn_sqrtiswap).
     eexists. eexists. split; [reflexivity|]. split; [reflexivity|].
-    destruct (pair_of_minmax x y Hxy) as [[Ea Eb]|[Ea Eb]]; destruct Ho as [->| ->]; cbn [map]; rewrite Ea, Eb, !Nat2Z.id; assumption.
+    destruct (pair_of_minmax x y Hxy) as [[Ea Eb]|[Ea Eb]]; destruct Ho as [->| ->]; cbn [map]; rewrite Ea, Eb, !Nat2Z.id; intros R A; apply (E12 R A).
 Qed.
 
 (* ---- the whole transpiled circuit ---- *)
@@ -215,8 +216,8 @@ Definition is_pulse_gate (g : ngate) : bool := existsb (String.eqb (g_name g)) p
 Fixpoint gate_icirc (gs : list ngate) (i : nat) : icirc :=
   match gs with
   | [] => []
-  | g :: r => (if is_pulse_gate g then match native_sgate g with Some sn => [(i, sn)] | None => [] end else [])
-              ++ gate_icirc r (S i)
+  | g :: r => ((if is_pulse_gate g then match native_sgate g with Some sn => [(i, sn)] | None => [] end else [])
+              ++ gate_icirc r (S i))%list
   end.
 
 Definition wf_circuit (c : cfg) (gs : list ngate) : Prop :=
@@ -284,18 +285,10 @@ Proof.
     + destruct (pulse_single c g x Ep Eg) as [d [lb [co ->]]].
       destruct (compile_gates c r p) as [[il' ph']|] eqn:Er; cbn [rbind] in H; [|discriminate].
       destruct (IH Hr _ _ _ (S i) Er) as [pc [Hpc Hsem]].
-      assert (Hex : forall (R : PhaseRing) (A : atoms R), exists sp sn, pulse_sgate c (g_name g) lb = Some sp /\
-                 native_sgate g = Some sn /\ sem [gden R A sp] = sem [gden R A sn])
-        by (intros R A; exact (instr_is_gate R A c g d lb co Hs Hg Eg)).
-      destruct (pulse_sgate c (g_name g) lb) as [sp|] eqn:Esp;
-        [|destruct (Hex KSProofs.PR_poly (mkAtoms _ (fun _ => k1 _) (fun _ => k1 _) (fun _ => ltac:(apply (Rmul_1_l (PR_ring _))))))
-            as [? [? [? _]]]; discriminate].
-      destruct (native_sgate g) as [sn|] eqn:Esn.
-      2:{ exfalso. admit. }
-      rewrite Hpc. exists ((i, sp) :: pc). split; [reflexivity|]. intros R env.
+      destruct (instr_is_gate c g d lb co Hs Hg Eg) as [sp [sn [Esp [Esn E3]]]].
+      rewrite Esp, Esn, Hpc. exists ((i, sp) :: pc). split; [reflexivity|]. intros R env.
       cbn [app iden map fst snd]. apply functional_extensionality; intro psi.
-      rewrite (sem_cons R _ (map _ pc)), (sem_cons R _ (map _ (gate_icirc r (S i)))).
-      destruct (Hex R (env i)) as [sp' [sn' [E1 [E2 E3]]]]. injection E1 as <-. injection E2 as <-. rewrite E3.
+      rewrite (sem_cons R _ (map _ pc)), (sem_cons R _ (map _ (gate_icirc r (S i)))). rewrite E3.
       exact (f_equal (fun f => f _) (Hsem R env)).
     + pose proof (not_pulse_no_pulses c g x Ep Eg) as Hx.
       assert (Hrest : exists il' ph' p', compile_gates c r p' = Ok (il', ph')).
@@ -304,4 +297,96 @@ Proof.
       destruct Hrest as [il' [ph' [p' Er]]]. destruct (IH Hr _ _ _ (S i) Er) as [pc [Hpc Hsem]].
       exists pc. split; [|exact Hsem].
       destruct x as [d ps|a|]; [subst ps; exact Hpc|exact Hpc|exact Hpc].
-Abort.
+Qed.
+
+(* ---- global phase gates of the transpiled circuit as scalar gates, and the full circuit ---- *)
+Definition phase_sgate : sgate := (MLit [[globalphase_ex]], []).
+Fixpoint phase_icirc (gs : list ngate) (i : nat) : icirc :=
+  match gs with
+  | [] => []
+  | g :: r => ((if is_phase_gate g then [(i, phase_sgate)] else []) ++ phase_icirc r (S i))%list
+  end.
+(* the transpiled circuit itself: pulse-compiled gates and GLOBALPHASE gates in their order (IDLE = identity) *)
+Fixpoint full_icirc (gs : list ngate) (i : nat) : icirc :=
+  match gs with
+  | [] => []
+  | g :: r => ((if is_pulse_gate g then match native_sgate g with Some sn => [(i, sn)] | None => [] end
+                else if is_phase_gate g then [(i, phase_sgate)] else []) ++ full_icirc r (S i))%list
+  end.
+
+Lemma scalar_commutes (R : PhaseRing) (M : mat R) (l : circ R) : forall psi,
+  sem l (Base.app M [] psi) = Base.app M [] (sem l psi).
+Proof.
+  induction l as [|g l IH]; intros psi; [reflexivity|].
+  rewrite !(sem_cons R g l). rewrite <- IH. f_equal. cbn [sem fold_left].
+  symmetry. apply (app_comm_disjoint R (PR_ring R)). intros i [].
+Qed.
+
+Lemma pulse_not_phase g : is_pulse_gate g = true -> is_phase_gate g = false.
+Proof.
+  intros H. apply is_pulse_gate_in in H. unfold is_phase_gate. revert H. unfold pulse_gates. cbn.
+  intros [<-|[<-|[<-|[<-|[]]]]]; reflexivity.
+Qed.
+
+Lemma iden_app (R : PhaseRing) (env : nat -> atoms R) (a b : icirc) : iden R env (a ++ b)%list = (iden R env a ++ iden R env b)%list.
+Proof. unfold iden. apply map_app. Qed.
+
+(* scalars commute with everything: the circuit = its gates followed by its phase factors *)
+Lemma full_split (R : PhaseRing) (env : nat -> atoms R) gs : forall i psi,
+  sem (iden R env (full_icirc gs i)) psi = sem (iden R env (phase_icirc gs i)) (sem (iden R env (gate_icirc gs i)) psi).
+Proof.
+  induction gs as [|g r IH]; intros i psi; [reflexivity|].
+  cbn [full_icirc gate_icirc phase_icirc]. rewrite !iden_app. rewrite !(sem_app R).
+  destruct (is_pulse_gate g) eqn:Ep.
+  - rewrite (pulse_not_phase g Ep). rewrite IH. reflexivity.
+  - destruct (is_phase_gate g); [|rewrite IH; reflexivity].
+    cbn [iden map sem fold_left fst snd]. fold (iden R env). rewrite IH.
+    change (fold_left (fun (p : state R) (g0 : gate R) => Base.app (fst g0) (snd g0) p)) with (@sem R).
+    unfold gden at 1 3. cbn [fst snd phase_sgate].
+    rewrite (scalar_commutes R _ (iden R env (gate_icirc r (S i)))).
+    rewrite (scalar_commutes R _ (iden R env (phase_icirc r (S i)))). reflexivity.
+Qed.
+
+(* ---- end-to-end, under the explicitly ASSUMED composition principle and the C13 facts ---- *)
+Section EndToEnd.
+Variable R : PhaseRing.
+Variable env : nat -> atoms R.          (* parameter values (angles) of the gates of the transpiled circuit *)
+(* what Processor.run_analytically computes from the loaded pulse table: the ordered product of the slice
+   propagators expm(-i H_n dt_n) (C14), BEFORE the global phase is appended.  External (scipy expm). *)
+Variable propagator : cfg -> option (list Q) -> list ngate -> state R -> state R.
+(* "the start times handed to the concatenation are a timetable accepted by C11" -- left abstract *)
+Variable valid_schedule : cfg -> option (list Q) -> list ngate -> Prop.
+
+(* ASSUMED (trusted base, validated numerically on every run): for a loaded circuit with a valid timetable the
+   ordered product of the slice exponentials of the compiled pulse table equals the product, in gate order, of the
+   closed-form pulse unitaries of the instructions.  This bundles: closed form = expm; exp(A+B) = exp(A) exp(B) for
+   the commuting Hamiltonians of simultaneously driven disjoint channels and the one-parameter group law within a
+   channel; C11 (dependencies respected, no overlap on a shared qubit), C12 (the table is the scheduled waveforms),
+   C14 (the slices are the piecewise-constant H). *)
+Hypothesis composition_principle : forall c sched gs tab ph pc,
+  load c sched gs = Ok (tab, ph) -> valid_schedule c sched gs -> pulse_icirc c gs 0 = Some pc ->
+  propagator c sched gs = sem (iden R env pc).
+
+(* C13 (transpile), stated as hypotheses about ONE run: the transpiled circuit gs of the processor c is well formed
+   (native gates only, two-qubit gates on pairwise different in-range qubits) and has the semantics of the original *)
+Variable c : cfg.
+Variable gs : list ngate.
+Variable original_sem : state R -> state R.
+Hypothesis c13_transpile_native : wf_circuit c gs.
+Hypothesis c13_transpile_sem : original_sem = sem (iden R env (full_icirc gs 0)).
+
+Theorem spinchain_reproduces_circuit sched tab ph :
+  setup_ok c -> load c sched gs = Ok (tab, ph) -> valid_schedule c sched gs ->
+  (* propagating the pulses, then applying the phase factors of the GLOBALPHASE gates, is the original circuit *)
+  (forall psi, sem (iden R env (phase_icirc gs 0)) (propagator c sched gs psi) = original_sem psi) /\
+  (* and the phase the processor reports is the sum of those GLOBALPHASE arguments *)
+  (ph == sum_phase gs)%Q.
+Proof.
+  intros Hs Hl Hv. split; [|exact (proj1 (global_phase_reported c sched gs tab ph Hl))].
+  intros psi. unfold load in Hl. destruct (compile_gates c gs 0) as [[il p]|] eqn:E; cbn [rbind] in Hl; [|discriminate].
+  destruct (pulses_are_gates c gs Hs c13_transpile_native 0%Q il p 0%nat E) as [pc [Hpc Hsem]].
+  assert (Hl' : load c sched gs = Ok (tab, ph)) by (unfold load; rewrite E; exact Hl).
+  rewrite (composition_principle c sched gs tab ph pc Hl' Hv Hpc), (Hsem R env), c13_transpile_sem.
+  symmetry. apply full_split.
+Qed.
+End EndToEnd.
